@@ -18,7 +18,7 @@ def gen_params(rng, is_async):
         if n in used or (k == 'tuple' and ('x' in used or 'y' in used)): continue
         v = rng.randrange(0, 1000)
         if k == 'u32': ps.append(P(n, '%s: u32' % n, '%du32' % v, 'u32', 'u64:%d' % v, str(v), v))
-        elif k == 'i64': ps.append(P(n, '%s: i64' % n, '-%di64' % v, 'i64', 'i64:-%d' % v, '-%d' % v, -v))
+        elif k == 'i64': ps.append(P(n, '%s: i64' % n, '%di64' % -v, 'i64', 'i64:%d' % -v, '%d' % -v, -v))      # (-0 is 0)
         elif k == 'str':
             s = rng.choice(['hello', 'a b', 'GET', 'x"y']); ps.append(P(n, "%s: &str" % n, '"%s"' % s.replace('"', '\\"'), 'str', 'str:' + hx(s), '"%s"' % s.replace('"', '\\"')))
         elif k == 'string':
